@@ -35,8 +35,7 @@ def ref_authority(auth):
     """-> dict or 'ood' (out of domain) ; host without brackets, port int|None|'invalid'."""
     user, pw, host, port = R.split_authority(auth)
     userinfo = auth.rsplit("@", 1)[0] if "@" in auth else ""
-    if "[" in userinfo or "]" in userinfo:
-        return "ood"
+    may_reject = "[" in userinfo or "]" in userinfo   # not legal raw in a userinfo: rejection is fine, a different split is not
     hp = auth.rsplit("@", 1)[1] if "@" in auth else auth
     if "[" in hp or "]" in hp:
         if not hp.startswith("["):
@@ -63,7 +62,7 @@ def ref_authority(auth):
                 p = "lenient"      # int()-lenient spellings (+80, 8_0, ' 80'): verdict unspecified
             except ValueError:
                 p = "invalid"
-    return {"user": user or None, "password": pw, "host": host or None, "port": p}
+    return {"user": user or None, "password": pw, "host": host or None, "port": p, "may_reject": may_reject}
 
 
 def case_parse(acc, prefix, word, encoded):
@@ -85,7 +84,7 @@ def case_parse(acc, prefix, word, encoded):
         obs_net = {"user": u.raw_user, "password": u.raw_password, "host": u.raw_host, "port": u.explicit_port}
         st = str(u)
     except ValueError as e:
-        if ra == "ood" or (ra and ra["port"] in ("invalid", "lenient")):
+        if ra == "ood" or (ra and (ra["port"] in ("invalid", "lenient") or ra.get("may_reject"))):
             acc.count("rejected_out_of_domain")
             return None
         if not encoded and (scheme or "").lower() in ("http", "https", "ws", "wss", "ftp") and auth is not None and ra and ra["host"] is None:
